@@ -651,6 +651,9 @@ def c15(tier, sc):
                           ("", ":y"), ("", " javascript:1"), ("x` ", "\x00/ data:1")):
             prose.append(vgen.b(pre) + low + vgen.b(post))
         prose.append(nm + vgen.b(" ") + low)
+        # the two bytes written as character references: still no '<' and no '=' in the input
+        for pre, post in (("&#60;", "&#62;"), ("&#x3c;", " x"), ("&#60", ">"), ("x' &#60;", " "), ("&#060;", "&#61;1"), ("a &#x3C", "&#x3d;1 "), ("\"&#60;", "/&#62;")):
+            prose.append(vgen.b(pre) + low + vgen.b(post))
     inputs += prose
     res = api_all(sc, vh, inputs)
     n = 0
@@ -1196,7 +1199,8 @@ def keyword_frames(big):
         low = [c + 32 if 65 <= c <= 90 else c for c in k]
         multi = 32 in k
         frames = [(S("1 "), S(" 1")), (S(""), S("(1)")), (S("select "), S("")),
-                  (S("1 "), S(".x")), (S("1 "), S("`x`")), (S("x."), S(" 1"))]         # word delimiters around the key
+                  (S("1 "), S(".x")), (S("1 "), S("`x`")), (S("x."), S(" 1")),         # word delimiters around the key
+                  (S("1;"), S("(1,2)")), (S("1; "), S(" 1=1"))]                        # at the head of a stacked statement
         if multi or big:
             frames += [(S("1 "), S(" 'x'")), (S("1;"), S(" 1")), (S("1 "), S(" (1)")), (S(""), S("")), (S("1; "), S(" function f")), (S("'; "), S(" view v"))]
         for pre, post in frames:
@@ -1679,6 +1683,11 @@ def c10(tier, sc):
     tmpl = list(vgen.dedup(tmpl))
     if not big:
         tmpl = tmpl[::2]
+    # every literal form whose spelling contains letters (digits of a radix, prefixes, exponents, suffixes, names)
+    tmpl += [vgen.b(x) for x in ("x'4f' union select 1", "1 and x'4f'=1", "1 union select x'1a2b'", "1 or x'ab'=x'ab'", "1 or b'01'=b'01'", "0x4f or 1=1", "1 or 0xab=0xab",
+                                 "1 or 0b1=0b1", "1 or 1e5=1e5", "1 or 1.5e-3=1", "1 or 1f=1f", "1 or 1d=1d", "1 or n'a'=n'a'", "1 or e'a'=e'a'", "1 or u&'a'=u&'a'", "1 or @ab=@ab",
+                                 "1 or @@cd=@@cd", "1 or [ab]=[ab]", "1 or `ab`=`ab`", "1 or $ab$c$ab$=1", "1 or \\N=1", "1 or null=null", "1 or true=true", "1;ifnull(1,2)",
+                                 "1;iff 1=1", "1;if(1=1) select 1", "1;exec xp_cmdshell('a')", "1 or current_user=user()", "1 or a.b.c=1", "1 or sleep(5)=0 -- ab")]
     un = ["b", "e", "n", "q", "u", "x", "d", "f", "o", "r", "i", "N", "X", "'", "1", " ", "\\", "$", "0", "&", "or ", "union ", "select ", "in ", "(",
           "like ", "not ", "user", "if", ";", "=", "."]
     cases = sqli_props(sc, d, rep, "case", "case", un, 3, templates=tmpl)
